@@ -33,6 +33,7 @@ type StressOpts struct {
 	HTTPReaders  bool
 	FailProb     float64
 	RealRunner   bool // use the real taskctl.TaskRunner (scripts are shell builtins)
+	BadVars      bool // every 8th schedule request carries the reserved variable name (the job cannot be started)
 	Watchdog     time.Duration
 	MaxPauseUs   int
 }
@@ -145,6 +146,7 @@ func RunStress(seed int64, o StressOpts) *StressResult {
 	var idsMu sync.Mutex
 	var ids []string
 	recs := map[string]*JobRec{}
+	badJobs := map[string]bool{}
 	addID := func(id, pipe string, spec gen.PipeSpec) {
 		idsMu.Lock()
 		ids = append(ids, id)
@@ -185,6 +187,13 @@ func RunStress(seed int64, o StressOpts) *StressResult {
 				specs := curSpecs.Load().([]gen.PipeSpec)
 				sp := specs[rr.Intn(len(specs))]
 				vars := map[string]interface{}{"k": float64(k), "c": float64(c)}
+				bad := o.BadVars && rr.Intn(8) == 0
+				if bad {
+					// (such a job is accepted, and refused when it is about to start - possibly much later, from the wait list,
+					// while clients read it)
+					vars["__jobID"] = "client-supplied"
+					vars["nested"] = map[string]interface{}{"a": []interface{}{1.0, "x"}}
+				}
 				var id, cls string
 				if api != nil && rr.Intn(3) == 0 {
 					id, cls = sys.ScheduleHTTP(c, api, sp.Name, vars)
@@ -193,6 +202,11 @@ func RunStress(seed int64, o StressOpts) *StressResult {
 				}
 				if cls == "ok" {
 					addID(id, sp.Name, sp)
+					if bad {
+						idsMu.Lock()
+						badJobs[id] = true
+						idsMu.Unlock()
+					}
 				}
 				pause(rr)
 			}
@@ -401,6 +415,9 @@ func RunStress(seed int64, o StressOpts) *StressResult {
 		in.DefinitionChanged["p0"], in.DefinitionChanged["p1"] = true, true
 	}
 	idsMu.Lock()
+	for id := range badJobs {
+		in.Unstartable[id] = true
+	}
 	for id, rec := range recs {
 		d := map[string][]string{}
 		a := map[string]bool{}
